@@ -174,9 +174,8 @@ static std::string project(Session & S) {
     ju.raw("data", jarr(u.m_data.begin(), u.m_data.end(), [](const std::shared_ptr<LogContainer> & c) {
         return "[" + jint((long) c->filePosition) + "," + jint((long) c->uncompressedFileSize) + "]"; }));
     JObj jq;
-    std::queue<ObjectHeaderBase *> copy = q.m_queue;
     std::vector<long> ids;
-    while (!copy.empty()) { ids.push_back(get_id(copy.front())); copy.pop(); }
+    for (ObjectHeaderBase * x : snapshot(q.m_queue)) ids.push_back((long) get_id(x));
     jq.putb("abort", q.m_abort).put("g", (long) q.m_tellg).put("p", (long) q.m_tellp).put("end", inf32(q.m_fileSize));
     jq.putb("good", q.m_rdstate == std::ios_base::goodbit);
     jq.raw("q", jarr(ids.begin(), ids.end(), [](long v) { return jint(v); }));
